@@ -372,6 +372,7 @@ func (w *worker[T]) getNode(i int) *nodeRec[T] {
 }
 
 type worker[T any] struct {
+	hb      *hbSlot
 	tmpl    *T
 	pool    []*nodeRec[T]
 	e       *Explorer[T]
@@ -383,6 +384,9 @@ type worker[T any] struct {
 	kbuf    []byte
 	okbuf   []byte
 	okbuf2  []byte
+	ffObj   *T
+	ffStore [][]byte
+	ffKey   []byte
 	kbuf2   []byte
 	pbuf    []byte
 	ptmp    *T
@@ -465,11 +469,11 @@ func (e *Explorer[T]) jobs() []trieJob {
 	return jobs
 }
 
-func (e *Explorer[T]) runOne(j trieJob, st *Stats) {
-	w := &worker[T]{e: e, st: st, scratch: new(T)}
+func (e *Explorer[T]) newWorker(st *Stats, hb *hbSlot) *worker[T] {
+	w := &worker[T]{e: e, st: st, scratch: new(T), hb: hb}
 	w.buf = make([]byte, 0, e.Cfg.Offs+4096)
 	w.buf = append(w.buf, junkBytes(e.Cfg.Junk, e.Cfg.Offs)...)
-	w.runJob(j.path, j.own)
+	return w
 }
 
 // exploreMany runs several explorers (typically one per configuration) on one shared worker pool.
@@ -491,12 +495,24 @@ func exploreMany[T any](r *Run, es []*Explorer[T]) {
 		go func() {
 			defer wg.Done()
 			st := newStats()
+			hb := newHB()
+			hb.st = st
+			// one worker (buffers, pooled node records) per explorer and goroutine, reused across its jobs
+			ws := map[*Explorer[T]]*worker[T]{}
 			for it := range ch {
 				if r.expired() {
 					st.Exhaustive = false
 					continue
 				}
-				it.e.runOne(it.j, st)
+				w := ws[it.e]
+				if w == nil {
+					if len(ws) > 8 {
+						ws = map[*Explorer[T]]*worker[T]{} // explorers are scheduled in order: old ones are finished
+					}
+					w = it.e.newWorker(st, hb)
+					ws[it.e] = w
+				}
+				w.runJob(it.j.path, it.j.own)
 			}
 			r.St.merge(st)
 		}()
@@ -672,6 +688,15 @@ func exemptFilter(obs string, f func(string) bool) string {
 
 // visit processes the trie node whose prefix is w.buf; returns false when the subtree is pruned.
 func (w *worker[T]) visit(depth int) bool {
+	if w.hb != nil {
+		w.hb.begin(func() *Violation {
+			base := w.e.Cfg.Offs
+			in := append([]byte(nil), w.buf[base:]...)
+			cs := mkCase("hang", w.e.Drv.Name, &w.e.Cfg, in, nil)
+			return &Violation{Property: "C04", Site: w.e.Drv.Name, Detail: fmt.Sprintf("exploring prefix %q (one-shot call or a resumed call on it)", in), Case: cs}
+		})
+		defer w.hb.end()
+	}
 	e := w.e
 	d := e.Drv
 	cfg := &e.Cfg
@@ -790,10 +815,18 @@ func (w *worker[T]) visit(depth int) bool {
 		for _, ff := range e.FinalFlags {
 			fc := *cfg
 			fc.Flags = cfg.Flags | ff
-			fo := d.New(&fc)
+			if w.ffObj == nil {
+				w.ffObj = new(T)
+			}
+			if w.tmpl == nil {
+				w.tmpl = d.New(cfg)
+			}
+			fo := w.ffObj
+			d.copyInto(fo, w.tmpl, &w.ffStore) // New() does not depend on the flags
 			fn, fe, _ := d.safeStep(fo, buf, base, &fc)
 			var fobs string
-			fkey := d.key(fo, buf, nil)
+			w.ffKey = d.key(fo, buf, w.ffKey[:0])
+			fkey := w.ffKey
 			for _, a := range w.stack {
 				for _, s := range a.susp {
 					d.copyInto(w.scratch, s.o, &w.store)
